@@ -672,6 +672,9 @@ func (e *Engine) globalInitVal(g *ssa.Global) (Val, bool) {
 						}
 					}
 				}
+				for c, ents := range o.St.maps {
+					e.constMaps[c] = ents
+				}
 				// storage allocated during initialisation that the globals point into
 				for c, v := range o.St.mem {
 					if !isGlobalCell[c] && c.Alloc {
